@@ -27,7 +27,8 @@ for d in sorted(glob.glob('/verif/seeded/*/meta.json')):
     needs = re.sub(r'\s+', ' ', m.get('needs', ''))[:150].replace('|', '/')
     if m.get('coverage_note'):
         needs = '**' + m['coverage_note'].replace('|', '/') + '**'
-    valid = evs and evs[-1].get('suite_passes_with_change') and evs[-1].get('demo_fails_with_change') and evs[-1].get('demo_passes_without_change')
+    full = [e for e in evs if 'suite_passes_with_change' in e]
+    valid = full and full[-1].get('suite_passes_with_change') and full[-1].get('demo_fails_with_change') and full[-1].get('demo_passes_without_change')
     rows.append((name, p, 'yes' if valid else 'NO', 'yes' if first.get(p) else 'no', ', '.join(sorted(by)) or '-', sub, summ, needs))
 out = ['| seeded change | property | confirmed (suite green, demo fails with / passes without) | caught at first run | caught now by | sub-check | what was changed | what it needs |', '|---|---|---|---|---|---|---|---|']
 for r in rows:
